@@ -42,7 +42,7 @@ func genC17(t *rapid.T) C17Case {
 			c.Len = 1
 		}
 	}
-	n := rapid.IntRange(1, 6).Draw(t, "words")
+	n := rapid.SampledFrom([]int{0, 0, 1, 2, 3, 4, 5, 6}).Draw(t, "words") // 0: the long line is the only line
 	perm := rapid.Permutation(c17Words).Draw(t, "perm")
 	c.Words = perm[:n]
 	c.Pos = rapid.IntRange(0, n).Draw(t, "pos")
@@ -183,6 +183,9 @@ func checkC17(c C17Case) Outcome {
 	case "renumber":
 		// the long line is a payload line of the second test
 		pre := []string{"---", "tests:", "  - test_id: 7", "    desc: first"}
+		if len(c.Words) == 0 {
+			pre = nil // the whole file is one long line (e.g. minified JSON, which is legal YAML)
+		}
 		body := []string{}
 		for i, w := range c.Words {
 			body = append(body, fmt.Sprintf("  - test_id: %d", 50+i), "    data: "+w)
@@ -226,6 +229,9 @@ func checkC17(c C17Case) Outcome {
 		}
 	case "copyright":
 		lines := []string{"# OWASP CRS ver.4.0.0", "# Copyright (c) 2021-2024 CRS project. All rights reserved."}
+		if len(c.Words) == 0 {
+			lines = nil
+		}
 		var body []string
 		for _, w := range c.Words {
 			body = append(body, "SecRule ARGS \"@rx "+w+"\" \"id:1,ver:'OWASP_CRS/4.0.0'\"")
@@ -262,7 +268,7 @@ func checkC17(c C17Case) Outcome {
 			return out
 		}
 	}
-	out.NonTrivial = c.Len >= 65536 && c.Pos < len(c.Words)
+	out.NonTrivial = c.Len >= 65536 && (c.Pos < len(c.Words) || len(c.Words) == 0)
 	out.Key = fmt.Sprintf("%s/%s/%d/%d/%v/%v", c.Cmd, c.Long, c.Len, c.Pos, c.Words, c.FinalNL)
 	out.Sample = map[string]any{"cmd": c.Cmd, "long_line_kind": c.Long, "long_line_bytes": c.Len, "position": c.Pos, "other_lines": len(c.Words), "final_newline": c.FinalNL}
 	return out
